@@ -65,12 +65,15 @@ def run_property(prop, tier, seed, jobs=None, only=None, verbose=False):
             return EXIT_ENGINE
     results, prog = engine.run_specs(specs, tier=tier, seed=seed, jobs=jobs, prog=prog)
     known = engine.load_known_findings()
-    obls, errors, unsupported = [], [], []
+    obls, errors, unsupported, notes = [], [], [], []
     functions = set()
     solver_s = 0.0
     backends = {}
     for r in results:
-        if r["error"]:
+        if r["error"] and r.get("optional") and r["error"].startswith("unsupported"):
+            notes.append(f"NOTE {prop} {r['family']}: unbounded-arity proof not applicable to the current code shape "
+                         f"({r['error'][:120]}); the bounded-arity families decide this method")
+        elif r["error"]:
             (unsupported if r["error"].startswith("unsupported") else errors).append((r["family"], r["error"]))
             # obligations of the variants that did run are still judged
         functions.update(r["functions"])
@@ -82,7 +85,7 @@ def run_property(prop, tier, seed, jobs=None, only=None, verbose=False):
                 solver_s += (o["ms"] or 0) / 1000.0
                 backends[o["backend"]] = backends.get(o["backend"], 0) + 1
     exit_code = EXIT_OK
-    lines = []
+    lines = list(notes)
     for fam, err in errors:
         lines.append(f"ENGINE-ERROR: {fam}: {err.strip().splitlines()[-1]}")
         if verbose:
